@@ -6,6 +6,7 @@ import (
 	"go/constant"
 	"go/token"
 	"go/types"
+	"golang.org/x/tools/go/packages"
 	"regexp"
 	"sort"
 	"strings"
@@ -499,6 +500,32 @@ func (c *Ctx) scanPredsD(fi *FuncInfo, args []ast.Expr, pi *predInfo, depth int)
 			}
 			c.scanPredsD(fi, elts, pi, depth)
 			continue
+		}
+		if sel, ok := a.(*ast.SelectorExpr); ok && depth < 4 {
+			// a condition kept in a field of a window / request object: what the object's literals put into that field
+			if s, ok := info.Selections[sel]; ok && s.Kind() == types.FieldVal {
+				fv := s.Obj()
+				for _, hf := range c.Funcs([]*packages.Package{fi.Pkg}) {
+					if hf.Decl.Body == nil {
+						continue
+					}
+					ast.Inspect(hf.Decl.Body, func(n ast.Node) bool {
+						cl, ok := n.(*ast.CompositeLit)
+						if !ok {
+							return true
+						}
+						for _, el := range cl.Elts {
+							if kv, ok := el.(*ast.KeyValueExpr); ok {
+								if kid, ok := kv.Key.(*ast.Ident); ok && hf.Pkg.TypesInfo.Uses[kid] == fv {
+									c.scanPredsD(hf, []ast.Expr{kv.Value}, pi, depth+1)
+								}
+							}
+						}
+						return true
+					})
+				}
+				continue
+			}
 		}
 		if id, ok := a.(*ast.Ident); ok && depth < 4 {
 			// local variable: every value assigned to it
